@@ -378,10 +378,12 @@ func (e *Exec) wellFormed(name, sym string, st *State) {
 	}
 	if !guardTop {
 		r := e.Out.FreshName("wf$r")
-		if strings.HasPrefix(name, "E$") {
+		if strings.HasPrefix(name, "E$") || strings.HasPrefix(name, "M$") {
 			i := e.Out.FreshName("wf$i")
+			_, vs, _ := arrayParts(e.heapSorts[name])
+			ks, _, _ := arrayParts(vs)
 			v := Sel(Sel(sym, r), i)
-			e.Out.Assert("(forall ((" + r + " Int) (" + i + " Int)) (! " + e.rangeFact(v, t, st) + " :pattern (" + v + ")))")
+			e.Out.Assert("(forall ((" + r + " Int) (" + i + " " + string(ks) + ")) (! " + e.rangeFact(v, t, st) + " :pattern (" + v + ")))")
 			return
 		}
 		v := Sel(sym, r)
@@ -389,9 +391,15 @@ func (e *Exec) wellFormed(name, sym string, st *State) {
 		return
 	}
 	r := e.Out.FreshName("wf$r")
-	if strings.HasPrefix(name, "E$") {
+	if strings.HasPrefix(name, "E$") || strings.HasPrefix(name, "M$") {
 		i := e.Out.FreshName("wf$i")
+		_, vs2, _ := arrayParts(e.heapSorts[name])
+		ks2, _, _ := arrayParts(vs2)
 		v := Sel(Sel(sym, r), i)
+		if ks2 != SInt {
+			e.Out.Assert("(forall ((" + r + " Int) (" + i + " " + string(ks2) + ")) (! (=> (<= " + r + " " + e.top(st) + ") " + e.rangeFact(v, t, st) + ") :pattern (" + v + ")))")
+			return
+		}
 		// only allocated rows are constrained: unallocated space stands for whatever a callee allocates later
 		e.Out.Assert("(forall ((" + r + " Int) (" + i + " Int)) (! (=> (<= " + r + " " + e.top(st) + ") " + e.rangeFact(v, t, st) + ") :pattern (" + v + ")))")
 		return
@@ -403,6 +411,7 @@ func (e *Exec) wellFormed(name, sym string, st *State) {
 func (e *Exec) mapHeaps(m *types.Map) (dom, val string, ds, vs Sort) {
 	k, v := e.sortOf(m.Key()), e.sortOf(m.Elem())
 	n := "M$" + e.typeName(m.Key()) + "$" + e.typeName(m.Elem())
+	e.noteHeapT(n+"$val", m.Elem())
 	return n + "$dom", n + "$val", ArrSort(SInt, ArrSort(k, SBool)), ArrSort(SInt, ArrSort(k, v))
 }
 
@@ -523,6 +532,10 @@ func (e *Exec) VerifyFunction(fn *ssa.Function, ctr *Contract) (err error) {
 			if len(fr.rets) > 1 {
 				suffix = fmt.Sprintf("@r%d", k+1)
 			}
+			// reachability of this return: a refutable guard means the path is dead (dead code, or excluded by the
+			// contracts); its negation canaries are then meaningless and are dropped by PostProcess
+			e.Out.AddObl(&Obligation{Name: FuncKey(fn) + "/canary:reach" + suffix, Func: FuncKey(fn), Kind: "reach", Label: "reach" + suffix, Text: "return at " + r.pos + " is reachable",
+				Formula: Not(r.guard), Expect: "sat"})
 			for _, c := range ctr.ExitHints {
 				t := e.evalBool(c, env2)
 				e.Out.AddObl(&Obligation{Name: FuncKey(fn) + "/hint:exit:" + c.Label + suffix, Func: FuncKey(fn), Kind: "hint", Label: c.Label, Text: c.Text, Src: c.Src,
@@ -538,7 +551,14 @@ func (e *Exec) VerifyFunction(fn *ssa.Function, ctr *Contract) (err error) {
 					Formula: Imp(r.guard, Not(t)), Expect: "sat"})
 			}
 		}
-		e.frameObligations(fr, exitSt, exitGuard, env)
+		for k, r := range fr.rets {
+			suffix := ""
+			if len(fr.rets) > 1 {
+				suffix = fmt.Sprintf("@r%d", k+1)
+			}
+			e.frameObligations(fr, r.st, r.guard, env, suffix)
+		}
+		_, _ = exitSt, exitGuard
 	}
 	// canary: 'false' at exit must fail
 	e.Out.AddObl(&Obligation{Name: FuncKey(fn) + "/canary:false-at-exit", Func: FuncKey(fn), Kind: "canary", Label: "false", Formula: Imp(exitGuard, "false"), Expect: "sat", Text: "assert false at exit must not be provable"})
